@@ -81,13 +81,15 @@ func (ledger *FinalityLedger[T]) GetFinality(key LedgerKey) (T, xerrors.XError) 
 func (ledger *FinalityLedger[T]) getFinality(key LedgerKey) (T, xerrors.XError) {
 	var emptyNil T
 
+	// search in finalityItems first:
+	// an item that is set again after being removed must be visible.
+	if item, ok := ledger.finalityItems.getGotItem(key); ok {
+		return item, nil
+	}
+
 	// if the item is already removed, return xerrors.ErrNotFoundResult
 	if ledger.finalityItems.isRemovedKey(key) {
 		return emptyNil, xerrors.ErrNotFoundResult
-	}
-
-	if item, ok := ledger.finalityItems.getGotItem(key); ok {
-		return item, nil
 	}
 
 	if item, xerr := ledger.read(key); xerr != nil {
